@@ -407,6 +407,10 @@ struct Interp<RK: RadioKind> {
     /// what the last prepare put on the air interface
     exp_freq: Option<u32>,
     exp_payload: Vec<u8>,
+    /// what was in force before a call that failed on an injected fault: a call that failed early has replaced
+    /// nothing, so a later transmission / reception without another prepare may still use it (Recovery::Continue)
+    exp_freq_before_fault: Option<u32>,
+    exp_payload_before_fault: Option<Vec<u8>>,
     saw_loss_or_failure: bool,
     nontrivial: bool,
     classes: Vec<&'static str>,
@@ -618,6 +622,8 @@ impl<RK: RadioKind> Interp<RK> {
             }
             // what the failed call asked for is what a later transmission / reception without another
             // prepare would have to use (Recovery::Continue)
+            self.exp_freq_before_fault = self.exp_freq;
+            self.exp_payload_before_fault = Some(self.exp_payload.clone());
             match op {
                 Op::PrepTx { ch, len } => {
                     self.exp_freq = Some(CHANNELS[*ch as usize % 4].0);
@@ -825,12 +831,13 @@ impl<RK: RadioKind> Interp<RK> {
                 }
                 if let Some(hz) = self.exp_freq {
                     let (lo, hi) = frf_of(self.board, hz);
-                    if freq != lo && freq != hi {
+                    let earlier = self.continuing && self.exp_freq_before_fault.map(|h| { let (l, u) = frf_of(self.board, h); freq == l || freq == u }).unwrap_or(false);
+                    if freq != lo && freq != hi && !earlier {
                         return Err(self.viol(case, st, "I3", format!("i3/value/{what}/frequency"), format!("{name} started {what} on PLL word {freq:#x}, requested {hz} Hz = {lo:#x}")));
                     }
                 }
                 if let Some(p) = payload {
-                    if p != self.exp_payload {
+                    if p != self.exp_payload && !(self.continuing && self.exp_payload_before_fault.as_ref() == Some(&p)) {
                         return Err(self.viol(case, st, "I3", format!("i3/value/tx/payload"), format!("{name} sent {} instead of {}", hex(&p), hex(&self.exp_payload))));
                     }
                 }
@@ -938,7 +945,7 @@ fn interp<RK: RadioKind>(rk: RK, world: Shared, case: &Case) -> RunOut {
         out.failure = Some(Failure::new(v.rule, cj, v.detail.clone()).with_fp(v.fp.clone()));
         return out;
     }
-    let mut it = Interp { lora, world: world.clone(), board: case.board, proto: PMode::Standby, sync: ctor_sync(case.ctor), sync_alt: None, recovering: false, continuing: false, exp_freq: None, exp_payload: vec![], saw_loss_or_failure: false, nontrivial: false, classes: vec![], carried_error: false, carried_done: false, carried_terminal: None };
+    let mut it = Interp { lora, world: world.clone(), board: case.board, proto: PMode::Standby, sync: ctor_sync(case.ctor), sync_alt: None, recovering: false, continuing: false, exp_freq: None, exp_payload: vec![], exp_freq_before_fault: None, exp_payload_before_fault: None, saw_loss_or_failure: false, nontrivial: false, classes: vec![], carried_error: false, carried_done: false, carried_terminal: None };
     let mut faulted = false;
     let mut fault_idx = 0usize;
     for (idx, op) in case.ops.iter().enumerate() {
